@@ -103,3 +103,88 @@ Print Assumptions palette_roundtrip.
 Example ex_palette : let pal := mkRGBA 64 64 64 64 :: repeat opaque_black 63 in
   length pal = 64%nat /\ explicit_count pal = 1%nat /\ forallb valid_premul pal = true.
 Proof. vm_compute. repeat split; reflexivity. Qed.
+
+(* ---- tie to the source: color.go and the colour operand codecs of encode/buffer.go, decode/buffer.go,
+   translated from /repo's working tree by harness/gosrc.go on every run (gen/GoSrc.v), compute the model's
+   functions for every input.  abs_color reads the Go struct {typ, data} as the model's colour. ---- *)
+From IVG Require Import GoSem GoSrc GenEqColor.
+
+Theorem code_DecodeColor1 : forall x, 0 <= x < 256 -> abs_color (go_ivg_DecodeColor1 x) = decode_color1 x.
+Proof. exact GenEqColor.go_DecodeColor1_eq. Qed.
+Print Assumptions code_DecodeColor1.
+
+Theorem code_Encode1 : forall c, wf_gcolor c -> go_ivg_Color_Encode1 c = enc1_result (encode1 (abs_color c)).
+Proof. exact GenEqColor.go_Encode1_eq. Qed.
+Print Assumptions code_Encode1.
+
+Theorem code_Encode2 : forall c, wf_gcolor c -> go_ivg_Color_Encode2 c = encl_result [0; 0] (encode2 (abs_color c)).
+Proof. exact GenEqColor.go_Encode2_eq. Qed.
+Print Assumptions code_Encode2.
+
+Theorem code_Encode3Direct : forall c, wf_gcolor c ->
+  go_ivg_Color_Encode3Direct c = encl_result [0; 0; 0] (encode3direct (abs_color c)).
+Proof. exact GenEqColor.go_Encode3Direct_eq. Qed.
+Print Assumptions code_Encode3Direct.
+
+Theorem code_Encode4 : forall c, wf_gcolor c ->
+  go_ivg_Color_Encode4 c = encl_result [0; 0; 0; 0] (encode4 (abs_color c)).
+Proof. exact GenEqColor.go_Encode4_eq. Qed.
+Print Assumptions code_Encode4.
+
+Theorem code_Encode3Indirect : forall c, wf_gcolor c ->
+  go_ivg_Color_Encode3Indirect c = encl_result [0; 0; 0] (encode3indirect (abs_color c)).
+Proof. exact GenEqColor.go_Encode3Indirect_eq. Qed.
+Print Assumptions code_Encode3Indirect.
+
+Theorem code_Color_RGBA : forall c, wf_gcolor c -> go_ivg_Color_RGBA c = color_rgba (abs_color c).
+Proof. exact GenEqColor.go_Color_RGBA_eq. Qed.
+Print Assumptions code_Color_RGBA.
+
+Theorem code_Resolve : forall fuel c pal creg, wf_gcolor c -> wf_regs pal -> wf_regs creg ->
+  go_ivg_Color_Resolve (S (S fuel)) c pal creg = resolve pal creg (abs_color c).
+Proof. exact GenEqColor.go_Resolve_eq. Qed.
+Print Assumptions code_Resolve.
+
+Theorem code_EncodeGradient : forall cBase nBase shape spread nStops,
+  go_ivg_EncodeGradient cBase nBase shape spread nStops = encode_gradient cBase nBase shape spread nStops.
+Proof. exact GenEqColor.go_EncodeGradient_eq. Qed.
+Print Assumptions code_EncodeGradient.
+
+Theorem code_DecodeGradient : forall c, go_ivg_DecodeGradient c =
+  let g := decode_gradient c in (gp_cbase g, gp_nbase g, gp_shape g, gp_spread g, gp_nstops g).
+Proof. exact GenEqColor.go_DecodeGradient_eq. Qed.
+Print Assumptions code_DecodeGradient.
+
+Theorem code_decodeColor1 : forall b, wf_bytes b -> col_result (go_decode_buffer_decodeColor1 b) = dec_color1 b.
+Proof. exact GenEqColor.go_decodeColor1_eq. Qed.
+Print Assumptions code_decodeColor1.
+
+Theorem code_decodeColor2 : forall b, wf_bytes b -> col_result (go_decode_buffer_decodeColor2 b) = dec_color2 b.
+Proof. exact GenEqColor.go_decodeColor2_eq. Qed.
+Print Assumptions code_decodeColor2.
+
+Theorem code_decodeColor3Direct : forall b, col_result (go_decode_buffer_decodeColor3Direct b) = dec_color3direct b.
+Proof. exact GenEqColor.go_decodeColor3Direct_eq. Qed.
+Print Assumptions code_decodeColor3Direct.
+
+Theorem code_decodeColor4 : forall b, col_result (go_decode_buffer_decodeColor4 b) = dec_color4 b.
+Proof. exact GenEqColor.go_decodeColor4_eq. Qed.
+Print Assumptions code_decodeColor4.
+
+Theorem code_decodeColor3Indirect : forall b, col_result (go_decode_buffer_decodeColor3Indirect b) = dec_color3indirect b.
+Proof. exact GenEqColor.go_decodeColor3Indirect_eq. Qed.
+Print Assumptions code_decodeColor3Indirect.
+
+Theorem code_encodeColor1 : forall b c, wf_gcolor c ->
+  go_encode_buffer_encodeColor1 b c = b ++ [match encode1 (abs_color c) with Some x => x | None => 0 end].
+Proof. exact GenEqColor.go_encodeColor1_eq. Qed.
+Print Assumptions code_encodeColor1.
+
+Theorem code_ValidGradient : forall c, wf_rgba c -> go_ivg_ValidGradient c = valid_gradient c.
+Proof. exact GenEqColor.go_ValidGradient_eq. Qed.
+Print Assumptions code_ValidGradient.
+
+Example ex_code_color : wf_gcolor (mkGColor 3 (mkRGBA 64 255 128 0)) /\
+  go_ivg_Color_Resolve 2 (mkGColor 3 (mkRGBA 64 200 60 0)) (repeat (mkRGBA 0 0 0 255) 64) (repeat (mkRGBA 10 20 30 40) 64)
+  = mkRGBA 40 47 22 94.
+Proof. split; [vm_compute; intuition congruence|vm_compute; reflexivity]. Qed.
